@@ -16,6 +16,9 @@
 (*   Line{j, s}               after the aggregator has finished: the j-th  *)
 (*                            line of the phout file, parsed               *)
 (*   End{reports, lines}                                                   *)
+(*   ELine{j, s}, EEnd{reports (= tokens of the schedule), lines}   a pool *)
+(*                            run by the real engine from a YAML config:   *)
+(*                            the lines of its phout file                  *)
 (*                                                                         *)
 (* Rules (operators of SamplePool.tla):                                    *)
 (*   TCoded       what a shot reports codes THAT shot - LineOK: proto, net *)
@@ -63,6 +66,13 @@ TWellFormed == At("Shot") => Last.c \in PoolKinds
 TCoded      == At("Shot") => LineOK(Last.c, Last.ammo, Abs(Last.s))
 TWritten    == At("Line") => /\ Len(lines) <= Len(reps)
                              /\ Len(lines) <= Len(reps) => lines[Len(lines)] = reps[Len(lines)].s
+\* a pool run by the REAL engine (discard_overflow at work), only the phout file recorded: every line is the line of a
+\* discarded shot or codes a fired shot that got its 200 - nothing in between (`... 777 200`) - and there is one line
+\* per token of the schedule
+EngineKinds == {PDisc, PShot(POut("status", 200), FALSE)}
+TEngineLine == At("ELine") => \E c \in EngineKinds : /\ LineOK(c, Last.s.id, Abs(Last.s))
+                                                     /\ IF IsDiscard(c) THEN Last.s.id = 0 /\ Last.s.proto = 0 ELSE Last.s.id > 0
+TEngineEnd  == At("EEnd") => Last.lines = Last.reports
 TAllWritten == At("End") => /\ Len(lines) = Len(reps)
                             /\ Last.reports = Len(reps) /\ Last.lines = Len(lines)
 =============================================================================
